@@ -1027,7 +1027,7 @@ class TLSConnection(TLSRecordLayer):
                 # check if group selected by server is valid
                 groups_ext = clientHello.getExtension(ExtensionType
                                                       .supported_groups)
-                if group_id not in groups_ext.groups:
+                if groups_ext is None or group_id not in groups_ext.groups:
                     for result in self._sendError(AlertDescription
                                                   .illegal_parameter,
                                                   "Server selected group we "
@@ -1096,6 +1096,12 @@ class TLSConnection(TLSRecordLayer):
                     yield result
                 else:
                     break
+
+            if result.random == TLS_1_3_HRR:
+                for result in self._sendError(
+                        AlertDescription.unexpected_message,
+                        "Received second HelloRetryRequest"):
+                    yield result
 
         serverHello = result
 
